@@ -332,16 +332,21 @@ def static_audit(files: Iterable[Path]) -> list[tuple[str, int, str]]:
         # drop string literals
         src = re.sub(r'"[^"\n]*"', '""', src)
         stack: list[str] = []          # enclosing Section / Module kinds
-        for n, line in enumerate(src.splitlines(), 1):
-            m0 = re.match(r'\s*(Section|Module\s+Type|Module)\s+([A-Za-z_][\w\']*)\s*(\.|:|\(|<)', line)
-            if m0 and not re.search(r':=', line):
+        # scan sentence by sentence (several vernacular sentences may share a line)
+        pos = 0
+        for sent in re.split(r'(?<=\.)\s+', src):
+            n = src.count('\n', 0, src.find(sent, pos)) + 1 if sent else 0
+            pos = max(pos, src.find(sent, pos))
+            st = sent.strip()
+            m0 = re.match(r'(Section|Module\s+Type|Module)\s+([A-Za-z_][\w\']*)\s*(\.|:|\(|<)?', st)
+            if m0 and ':=' not in st:
                 stack.append('Section' if m0.group(1) == 'Section' else 'Module')
-            for m in FORBIDDEN.finditer(line):
+            for m in FORBIDDEN.finditer(st):
                 w = m.group(0)
                 if w in SECTION_ONLY and 'Section' in stack:
                     continue
                 bad.append((str(p.relative_to(VERIF)), n, w))
-            if re.match(r'\s*End\s+[A-Za-z_]', line) and stack:
+            if re.match(r'End\s+[A-Za-z_]', st) and stack:
                 stack.pop()
     return bad
 
